@@ -509,7 +509,7 @@ def native_stage(chk, pid):
     except Exception:
         raise hv.Infra("native directed-distance stage failed: " + (o + e)[-800:])
     d5, d17 = ds.pop("first_c05", ""), ds.pop("first_c17", "")
-    ds["stage"] = "real hexasm on programs whose reference operand is exactly +-(m*16^k + {-1,0,1}) (relative) or m*16^k + {-1,0,1} (absolute), up to %d" % limit
+    ds["stage"] = "real hexasm on programs whose reference operand is exactly +-(m*16^k + {-2..2}) (relative) or m*16^k + {-2..2} (absolute), up to %d, and on reference chains that need 5..102 layout passes" % limit
     ds["secs"] = round(secs, 1)
     chk.native.append(ds)
     mine = (ds["bad_layout_or_reference"], d5, ds.get("why_c05")) if pid == "C05" else (ds["bad_layout_or_reference"] + ds["bad_listing_only"], d17 or d5, ds.get("why_c17") or ds.get("why_c05"))
